@@ -126,6 +126,32 @@ CLAIMED["C17"] = dict(
          "C09 machinery when present. Partial: CPython hashing/allocation are observed, not modelled.",
     design_ref="§5 C17", note="str(kernel)/repr(array) are not compared (their printers list sets in hash order).")
 
+CLAIMED["C04"] = dict(
+    technique="Lean 4 theorems over a term/heap model of structural equality + kernel-checked (decide +kernel) obligations over "
+              "tables regenerated from the live == / hash by probing + correspondence incl. fresh interpreters",
+    text="Proved (model Pt.EqM): eqStruct is reflexive/symmetric/transitive for ANY field table and nesting; eqStruct <-> SemEq when "
+         "the table equals the semantic fields; hash table within eq table => equal terms hash equally (any mixing function); "
+         "congruence for one-hole contexts of any depth; the memoised id-pair comparison over DAG heaps equals eqStruct of the "
+         "unfoldings. Kernel-checked on tables regenerated EVERY run by probing the live code (24 kinds, 139 (kind,field) rows, 174 "
+         "probe pairs): == compares every semantic field, ignores only non-semantic ones, hash respects ==, tables cover all kinds "
+         "(exclusions only from the committed known_findings.json). Tie: seeded DAG pairs (reflexive, independently rebuilt, "
+         "one-field mutants at random depth, pickled, unpickled in fresh interpreters with other PYTHONHASHSEEDs): real ==/!=/hash/"
+         "set/dict membership vs eqStruct/SemEq from ptdriver on reflectively serialised terms; _hash_value absent from pickles; "
+         "transitivity triples. Partial: CPython hash and pickle are executed, not modelled.",
+    design_ref="§5 C04", note="DataWrapper has documented identity semantics (identity kind). Internal rows the public API cannot "
+                               "produce are probed and reported, excluded from obligations.")
+CLAIMED["C18"] = dict(
+    technique="Lean 4 theorems about a prefix-free token encoding (congruence, injectivity) + kernel-checked key-field table "
+              "regenerated by probing PytatoKeyBuilder + keys across fresh interpreters",
+    text="Proved (model): the field encoding is prefix-free, a congruence (SemEq => same encoding) and injective (same encoding => "
+         "SemEq when the key table equals the semantic fields incl. contents/dtype/shape of wrapped data); key faithful under an "
+         "injective hash (hypothesis). Kernel-checked each run on the regenerated table: every semantic field flips the key, only "
+         "non-semantic ones do not. Tie: (graph, rebuilt graph), (graph, one-component mutant incl. wrapped data differing in one "
+         "element / dtype with identical bytes / shape with identical bytes) pairs; keys computed in >=3 child interpreters with "
+         "different hash seeds, before and after pickling. Partial: collision resistance of the hash and pytools' KeyBuilder for "
+         "built-ins are assumed/executed; traceback tagging fixed off as the statement says.",
+    design_ref="§5 C18", note="enc abstracts the KeyBuilder's byte stream.")
+
 NOT_YET = "check not built yet in this revision (see DESIGN.md §10 build order); not claimed"
 
 ALL = [f"C{n:02d}" for n in range(1, 21)]
